@@ -18,7 +18,7 @@ ASSUMPTIONS = ['volatile formulas (NOW/TODAY/RAND/UUID/REQUEST) are never genera
                'changes, with the data columns holding values of the same Python types in both engines, is the subject of C05 '
                '(pre-state not a fixpoint) and only counted here',
                'trigger states of open C05 findings that can be read off a snapshot are taken back (History.avoid_open_triggers)']
-REQUIRED = {'reopenings': {'quick': 80, 'thorough': 900}, 'cells_handed_over': {'quick': 20000, 'thorough': 200000},
+REQUIRED = {'reopenings': {'quick': 80, 'thorough': 500}, 'cells_handed_over': {'quick': 20000, 'thorough': 200000},
             'blobs_handed_over': {'quick': 500, 'thorough': 5000}}
 SHARD_TIMEOUT = {'quick': 300, 'thorough': 3000}
 
@@ -120,8 +120,8 @@ class RichFormulaGen(gen_formula.FormulaGen):
 
 
 def plan(tier, seed):
-  n, steps = (16, 40) if tier == 'quick' else (160, 70)
-  return [{'witness': 'summary_raising_key'}, {'witness': 'nan_groupby_key'}, {'witness': 'big_int'}] + \
+  n, steps = (16, 40) if tier == 'quick' else (64, 60)
+  return [{'witness': 'summary_raising_key'}, {'witness': 'nan_groupby_key'}, {'witness': 'big_int'}, {'witness': 'nan_in_list'}] + \
          [{'hseed': seed * 100003 + 7000 + i, 'steps': steps, 'every': 5} for i in range(n)]
 
 
@@ -218,6 +218,7 @@ class ReopenMonitor(histories.Monitor):
       # Quarantine (DESIGN.md 3.6): the bundle took the document into the trigger state of a listed C05 finding; it is
       # taken back with its own undo actions. The finding is replayed by the witness shard of every run.
       h.acc.count('bundles_taken_back_open_finding_trigger')
+      h.acc.count('taken_back.raising_or_nan_groupby_key')
       h.apply([['ApplyUndoActions', json.loads(json.dumps(ctx.reply.undo))]], 'take-back')
       if snapshot.diff(ctx.S0, h.snap(), maxn=1):
         h.acc.count('histories_cut_short_open_finding_trigger')
@@ -262,6 +263,15 @@ class ReopenMonitor(histories.Monitor):
                     {'bundle': bundle})
       if not reply.stored and not d:
         return
+      # Stored actions explained by the open finding nan_inside_container_counts_as_change are reported under its key; the
+      # rest is judged on its own.
+      nan_part = [a for a in reply.stored if only_nan_container_updates([a])]
+      if nan_part:
+        h.violation('nan_inside_container_counts_as_change', 'Calculate on the reopened document re-emitted %d cells holding NaN inside a list/dict: %s' % (
+            len(nan_part), snapshot._short(nan_part[:2], 300)), {'bundle': bundle, 'stored': nan_part[:6]})
+        reply.stored = [a for a in reply.stored if not only_nan_container_updates([a])]
+        if not reply.stored and not d:
+          return
       detail = {'bundle': bundle, 'diff': d, 'stored': reply.stored[:6]}
       self.detail = detail
       # Attribution (DESIGN.md 3.6): was the live state a fixpoint of its own data?
@@ -295,7 +305,9 @@ class ReopenMonitor(histories.Monitor):
     if self.type_change or kind == 'data':
       return False
     try:
-      F, _ = reload.scratch_snapshot(h.proc)
+      F, _ = reload.scratch_snapshot(h.proc, h.proc_kw)
+    except histories.Watchdog:
+      raise                  # inconclusive, never a violation
     except Exception:      # pylint: disable=broad-except
       return False
     h.acc.count('scratch_recalcs')
@@ -337,6 +349,32 @@ def user_data_equal(S, R):
   return True
 
 
+def contains_nan(v, nested=False):
+  """True iff an encoded value is a list / dict that contains a NaN at some depth."""
+  if isinstance(v, float):
+    return nested and v != v
+  if isinstance(v, (list, tuple)):
+    return any(contains_nan(x, True) for x in v)
+  if isinstance(v, dict):
+    return any(contains_nan(x, True) for x in v.values())
+  return False
+
+
+def only_nan_container_updates(stored):
+  """Matcher of the open finding nan_inside_container_counts_as_change: every stored action is a record update all of whose
+  written cells are lists / dicts containing NaN."""
+  for a in stored:
+    if a[0] == 'UpdateRecord':
+      vals = list(a[3].values())
+    elif a[0] == 'BulkUpdateRecord':
+      vals = [v for col in a[3].values() for v in col]
+    else:
+      return False
+    if not vals or not all(contains_nan(v) for v in vals):
+      return False
+  return bool(stored)
+
+
 def known_type_change(tc, S, R):
   """Mechanism key of a listed finding that explains the type changes, or None."""
   if tc and user_data_equal(S, R) and all(x == y.replace('UnmarshallableValue', 'int') for x, y in tc[5]):
@@ -349,14 +387,14 @@ def witness_summary_raising_key(acc):
   formula reads it (a Date column holding inf): the live engine keeps the summary row of the old key with its old
   group, the reopened document removes it while loading."""
   from vlib.client import EngineProc
-  with EngineProc() as p:
+  with EngineProc(timeout=240.0) as p:
     p.init_doc()
     p.apply([['AddTable', 'T', [{'id': 'D', 'type': 'Date', 'isFormula': False}]]])
     p.apply([['BulkAddRecord', 'T', [None, None], {'D': [86400.0, 172800.0]}]])
     p.apply([['CreateViewSection', 1, 0, 'record', [2], None]])
     p.apply([['UpdateRecord', 'T', 1, {'D': float('inf')}]])
     S = snapshot.take(p)
-    fresh, reply, info = reopen.reopen(p)
+    fresh, reply, info = reopen.reopen(p, {'timeout': 240.0})
     try:
       R = snapshot.take(fresh)
     finally:
@@ -375,13 +413,13 @@ def witness_nan_groupby_key(acc):
   key is only found by object identity. In the live engine the summary row's key and the source cell are the same float
   object; after storage they are two objects, so loading adds a new summary row for the NaN and removes the old one."""
   from vlib.client import EngineProc
-  with EngineProc() as p:
+  with EngineProc(timeout=240.0) as p:
     p.init_doc()
     p.apply([['AddTable', 'T', [{'id': 'B', 'type': 'Numeric', 'isFormula': False}]]])
     p.apply([['BulkAddRecord', 'T', [None, None], {'B': [float('nan'), 1.0]}]])
     p.apply([['CreateViewSection', 1, 0, 'record', [2], None]])
     S = snapshot.take(p)
-    fresh, reply, info = reopen.reopen(p)
+    fresh, reply, info = reopen.reopen(p, {'timeout': 240.0})
     try:
       R = snapshot.take(fresh)
     finally:
@@ -395,19 +433,42 @@ def witness_nan_groupby_key(acc):
       acc.violation('reopen_state_differs', 'witness history: %s %s' % (reply.stored[:3], d[:3]), {'diff': d, 'stored': reply.stored})
 
 
+def witness_nan_in_list(acc):
+  """Open finding nan_inside_container_counts_as_change."""
+  from vlib.client import EngineProc
+  with EngineProc(timeout=240.0) as p:
+    p.init_doc()
+    p.apply([['AddTable', 'T', [{'id': 'A', 'type': 'Numeric', 'isFormula': False}, {'id': 'F', 'type': 'Any', 'isFormula': True, 'formula': '[$A, 1]'},
+                                {'id': 'G', 'type': 'Any', 'isFormula': True, 'formula': '{"v": $A}'}]]])
+    p.apply([['BulkAddRecord', 'T', [None, None], {'A': [float('nan'), 2.0]}]])
+    S = snapshot.take(p)
+    fresh, reply, info = reopen.reopen(p, {'timeout': 240.0})
+    try:
+      R = snapshot.take(fresh)
+    finally:
+      fresh.close()
+    acc.count('witness_runs')
+    d = snapshot.diff(S, R)
+    if not d and only_nan_container_updates(reply.stored):
+      acc.violation('nan_inside_container_counts_as_change', 'witness: T.A = [nan, 2.0], F = [$A, 1], G = {"v": $A}, reopened: stored %s' % (
+          snapshot._short(reply.stored, 300),), {'stored': reply.stored})
+    elif d or reply.stored:
+      acc.violation('reopen_emits_stored', 'witness history: %s %s' % (reply.stored[:3], d[:3]), {'diff': d, 'stored': reply.stored})
+
+
 def witness_big_int(acc):
   """Open finding big_int_reopens_as_unmarshallable: an Any data cell holding an int beyond 32 bits (entered, or left by a
   trigger formula such as 2 ** 40) is reported as ['U', '<digits>'], which loads as an UnmarshallableValue object: formulas
   that read the cell stop seeing a number."""
   from vlib.client import EngineProc
-  with EngineProc() as p:
+  with EngineProc(timeout=240.0) as p:
     p.init_doc()
     p.apply([['AddTable', 'T', [{'id': 'A', 'type': 'Int', 'isFormula': False},
                                 {'id': 'B', 'type': 'Any', 'isFormula': False, 'formula': '2 ** 40 + $A'},
                                 {'id': 'F', 'type': 'Any', 'isFormula': True, 'formula': '$B % 7'}]]])
     p.apply([['AddRecord', 'T', None, {'A': 1}]])
     S = snapshot.take(p)
-    fresh, reply, info = reopen.reopen(p)
+    fresh, reply, info = reopen.reopen(p, {'timeout': 240.0})
     try:
       R = snapshot.take(fresh)
       tc = first_type_change(p.call('verif_py', 'props.C07_inproc', 'typed_data'), fresh.call('verif_py', 'props.C07_inproc', 'typed_data'))
